@@ -682,6 +682,14 @@ def c05(rng):
             out.append(('taproot:scriptspend of a committed script that calls definition 0 (own verdict False)',
                         [bs(T.make_taproot_witness_scriptspend(P, Sd)), bs(T.make_taproot_lock(P, Sd, sigflags=flh))],
                         sf, cfg, False, None, None))
+            # ... and the point that OP_DERIVE_POINT leaves in the cache under the bytes key X (default flag 2; finding D23)
+            Sx = Script.from_src('read_cache x58 pop0 true')
+            out.append(('nonnative:scriptspend of a committed script that reads cache key X (own verdict False)',
+                        [bs(T.make_taproot_witness_scriptspend(P, Sx)), bs(T.make_nonnative_taproot_lock(P, Sx, sigflags=flh))],
+                        sf, cfg, False, 'D23', None))
+            out.append(('taproot:scriptspend of a committed script that reads cache key X (own verdict False)',
+                        [bs(T.make_taproot_witness_scriptspend(P, Sx)), bs(T.make_taproot_lock(P, Sx, sigflags=flh))],
+                        sf, cfg, False, None, None))
             c1 = tsh.Cfg(contracts=((REC, 'none'),), limit=1)
             Sb = Script.from_src('true pop0 true')
             out.append(('nonnative:scriptspend under callstack_limit 1 (native lock: True)',
